@@ -215,6 +215,30 @@ def rule_level_flow(ctx):
     # builders: the level is transmitted or refused per version -- decided in C11 (builders)
 
 
+
+def rule_fresh_waiter(ctx):
+    R = "position-advances"
+    # "never stalls": when a fetch response contained nothing deliverable (only markers / aborted batches) the hand-out loop goes round
+    # and waits again; it must wait on a NEW future each time -- awaiting the already-resolved one returns at once and the loop spins
+    # without ever letting the fetch routine run
+    for m in ("next_record", "fetched_records"):
+        fi = ctx.fn(f"{c03.FETCHER}.{m}")
+        c = ctx.cfg(fi)
+        cr = c.calls(attr="_create_fetch_waiter")
+        ctx.anchor(len(cr) >= 1, f"_create_fetch_waiter() in {m}")
+        heads = [h for h in c.nodes if h.kind == "loop" and isinstance(h.ast, ast.While)]
+        for cw in cr:
+            nm = cw.stmt.targets[0].id if isinstance(cw.stmt, ast.Assign) and isinstance(cw.stmt.targets[0], ast.Name) else None
+            aws = [n for n in c.nodes if n.kind == "await" and nm is not None and nm in {x.id for x in ast.walk(n.ast) if isinstance(x, ast.Name)}]
+            ok = bool(aws)
+            for a in aws:
+                for h in heads:
+                    if a in c.loop_body(h) and a in c.reachable([h], avoid=[cw], exc=False):
+                        ok = False
+            ctx.ob(R, fi, cw, ok, f"{m}: the loop can wait again on a fetch waiter created in an earlier iteration (already resolved): it spins instead of yielding, "
+                                  "the fetch routine never runs and delivery stalls after a response with nothing deliverable", text=f"{m}:fresh-waiter-per-wait")
+
+
 def run(ctx):
     rep = ctx.rep
     rep.explanation = ("C08 structural clauses of the isolation filter in PartitionRecords._unpack_records: control batches never reach the record "
@@ -226,4 +250,5 @@ def run(ctx):
     rule_ordering(ctx)
     c03.rule_unpack(ctx)
     rule_level_flow(ctx)
+    rule_fresh_waiter(ctx)
     rep.nd("exactness of the delivered set for all interleavings of producers / cuts of the log (needs concrete logs)")
